@@ -252,6 +252,10 @@ def _structural(ctx, prop):
 
     try:
         recs = frames.run_for(prop)
+        if prop == "C08":
+            from . import dunder
+
+            recs += dunder.run()
     except Exception as exc:  # noqa: BLE001 - analysis bug: undecided, never a violation
         print(f"UNDECIDED structural analysis crashed: {type(exc).__name__}: {exc}", file=sys.stderr)
         return 0
